@@ -43,9 +43,12 @@ AddFmt  == \E f \in FmtPool : ~Has(s, "fmt") /\ s' = Ext(s, "fmt", f)
 AddBound(k) == \E p \in Pts : ~Has(s, k) /\ s' = Ext(s, k, p)
 AddMult == ~Has(s, "mult") /\ s' = Ext(s, "mult", 2)
 AddDef  == \E p \in Pts : ~Has(s, "def") /\ s' = Ext(s, "def", p)
+(* the nullable spelling {"type": ["integer", "null"]}: same selection, same default validation
+   (explored for the schemas that carry a default) *)
+AddNul  == Has(s, "def") /\ ~Has(s, "nul") /\ s' = Ext(s, "nul", TRUE)
 
 Next == /\ (AddFmt \/ AddBound("min") \/ AddBound("max") \/ AddBound("emin")
-              \/ AddBound("emax") \/ AddMult \/ AddDef)
+              \/ AddBound("emax") \/ AddMult \/ AddDef \/ AddNul)
         /\ Consistent(s')
 
 Spec == Init /\ [][Next]_s
